@@ -162,6 +162,29 @@ theorem C01_mixed_type_witness :
   refine ⟨⟨[(nA, v1)], [(nA, .own (nA, v1) [])], [(PATH, [.own (nA, v1) [2], .own (nA, v1) [1]])],
            [(AX, .own (nA, v1) [])]⟩, ?_, ?_⟩ <;> decide +kernel
 
+/-! ## D35: a replaced version unwinds a dependency the same request has just set up -/
+
+/-- `top 1`: `setupRequired(c 2); setupRequired(a 2)`; `a 1`: `setupRequired(c)`; `a 2`, `c 1`, `c 2`: empty tables -/
+def dbD35 : Db :=
+  { decls := [
+      ⟨nTop, v1, [1], [(.always, .dep nC false false (some (.explicit v2.1)) none [] false),
+                       (.always, .dep nA false false (some (.explicit v2.1)) none [] false)]⟩,
+      ⟨nA, v1, [2], [(.always, .dep nC false false none none [] false)]⟩,
+      ⟨nA, v2, [3], []⟩,
+      ⟨nC, v1, [4], []⟩,
+      ⟨nC, v2, [5], []⟩ ],
+    tags := [(tagCurrent, nTop, v1), (tagCurrent, nA, v1), (tagCurrent, nC, v1)] }
+
+/-- With `a 1` and `c 1` set up, `setup top` switches `c` to 2 (first line), then replaces `a 1` by `a 2` (second line):
+unwinding `a 1` unsets `c` — the `c 2` the first line has just set up — and the request succeeds without any `c`, although
+`top`'s table requires it.  `C01_required_closure_partial` excludes this by `OneVersion` (no name of the closure has two
+declared versions, so nothing is ever replaced). -/
+theorem C01_replaced_version_witness :
+    envOf (runSetup dbD35 20 reqTop
+        ⟨[(nA, v1), (nC, v1)], [(nA, .own (nA, v1) []), (nC, .own (nC, v1) [])], [], []⟩) =
+      some ⟨[(nA, v2), (nTop, v1)], [(nA, .own (nA, v2) []), (nTop, .own (nTop, v1) [])], [], []⟩ := by
+  decide +kernel
+
 /-! ## non-vacuity: a diamond that switches `c 1 → c 2` inside one request -/
 
 /-- `top → a → c 1`, `top → b → c 2` -/
